@@ -1,2 +1,2 @@
 (* C03 — placeholder while the model is being validated *)
-From AV Require Import Lib.Base H1.ConnRec H1.ConnState.
+Require Import AV.Lib.Base AV.H1.ConnRec AV.H1.ConnState.
